@@ -201,7 +201,7 @@ Call(M, e, unused) ==
        ELSE IF \E c \in 1..Len(Ma.classes) : Ma.classes[c].n = e.f THEN
             (LET cl == Ma.classes[CHOOSE c \in 1..Len(Ma.classes) : Ma.classes[c].n = e.f] IN
              IF Len(cl.ctor.params) # Len(a.ds) THEN Err(Ma, "ee")
-             ELSE LET M1 == [Ma EXCEPT !.cells = @ \o [i \in 1..Len(cl.attrs) |-> [v |-> VUndef, c |-> FALSE]]]
+             ELSE LET M1 == [Ma EXCEPT !.cells = @ \o [i \in 1..Len(cl.attrs) |-> [v |-> VUndef, c |-> FALSE, rv |-> FALSE]]]
                       es == [i \in 1..Len(cl.attrs) |-> Len(Ma.cells) + i]
                       M2 == NewObj(M1, Obj("obj", cl.n, cl.attrs, es, NoAst, <<>>))
                       M3 == NewCell(M2, VRef("obj", LastObj(M2)), FALSE)
